@@ -19,6 +19,15 @@ class Survival:
         self.last_cause[node.name] = (cause, heads)
 
     def after_step(self, node, cause):
+        junk = node.table_junk()
+        if junk and (node.name, node.incarnation, 'junk') not in self.reported:
+            self.reported.add((node.name, node.incarnation, 'junk'))
+            self.w.violation(self.prop, 'ike_sa_table_corrupted', {'entry': type(junk[0]).__name__},
+                             f'{node.name}: the IKE_SA table holds {len(junk)} entr{"y" if len(junk) == 1 else "ies"} that are no IKE_SA '
+                             f'({[repr(x)[:40] for x in junk][:3]}): every sweep over the table and every SPI lookup behind it now raises')
+            if self.poison:
+                self.w.poisoned = True
+            return
         if node.state != 'dead' or node.death is None or (node.name, node.incarnation) in self.reported:
             return
         self.reported.add((node.name, node.incarnation))
